@@ -462,7 +462,10 @@ func genCLI(t *rapid.T) cliCase {
 		}
 	}
 	if rapid.IntRange(0, 7).Draw(t, "bad") == 0 {
-		c.Bad = rapid.SampledFrom([]string{"gap-mut-3", "gap-mut-negative", "unknown-model", "range-min>max", "range-malformed", "single-range", "protein-alignment", "missing-file"}).Draw(t, "badkind")
+		c.Bad = rapid.SampledFrom([]string{"gap-mut-3", "gap-mut-negative", "unknown-model", "range-min>max", "range-malformed", "single-range", "protein-alignment", "missing-file", "phylip-fewer-sequences-than-the-header-says"}).Draw(t, "badkind")
+		if c.Bad == "phylip-fewer-sequences-than-the-header-says" {
+			c.Phylip, c.Layout = true, cli.Layout{} // a reading error that the parser reports while the command runs
+		}
 		if (c.Bad == "gap-mut-3" || c.Bad == "gap-mut-negative") && refdist.Corrected(c.Opt.Model) {
 			c.Opt.Model = refdist.PDist
 		}
@@ -493,6 +496,9 @@ func TestCLI(t *testing.T) {
 		var in string
 		if c.Phylip {
 			text := phylip(rows)
+			if c.Bad == "phylip-fewer-sequences-than-the-header-says" {
+				text = fmt.Sprintf("%d %d\n", len(rows)+1, len(rows[0].Seq)) + text[strings.Index(text, "\n")+1:]
+			}
 			if c.Before != nil {
 				text = phylip(distrun.Ali(c.Before).Rows) + text
 			}
